@@ -62,11 +62,14 @@ class Loader(yaml.SafeLoader):
             A processed node representing the document.
         """
         node = cast(yaml.Node, super().get_single_node())
-        if node is not None:
-            node = self.__process_node(
-                    self.__expand_aliases(node, []),
-                    type(self).document_type)
-        return node
+        if node is None:
+            # an empty document is a null value, which the document
+            # type may or may not accept
+            mark = yaml.error.Mark('<empty document>', 0, 0, 0, None, 0)
+            node = yaml.ScalarNode('tag:yaml.org,2002:null', '', mark, mark)
+        return self.__process_node(
+                self.__expand_aliases(node, []),
+                type(self).document_type)
 
     def get_node(self) -> yaml.Node:
         """Hook used when reading a multi-document stream.
